@@ -5,19 +5,29 @@ import c07_gen as G
 from common import *
 
 PID = "C07"
-RULE = ("(1) flattening: Gen/Flatten.v live_args vs the crate's if_args_and_clean_pats+get_live_args_and_sig on signatures (every pattern shape of depth<=2 with <=3 binders "
-        "(sampled in the quick tier) + random 0-5 parameter lists, generator-internal identifiers in every hole); (2) real expansions over method kind x lib x "
-        "parameter grammar: wf_C07 on the recognised IR (kernel-checked instance lemmas), live parameter names vs the model, types vs `Self`-substituted input types, "
-        "the declarative oracle per method; non-trivial = distinct (lib, kind, #params, pattern kinds, generator identifier used, generic, returns) classes")
+RULE = ("(1) flattening: Gen/Flatten.v live_args (identifiers | unsupported pattern | naming conflict) vs the crate's if_args_and_clean_pats+get_live_args_and_sig on signatures "
+        "(every pattern shape of depth<=2 with <=3 binders (sampled in the quick tier) + random 0-5 parameter lists, generator-internal identifiers in every hole); "
+        "(2) real expansions over method kind x lib x parameter grammar: wf_C07 on the recognised IR (kernel-checked instance lemmas), live parameter names vs the model, "
+        "types vs `Self`-substituted input types, rejections vs the model / the reserved-word rules, the declarative oracle per method; regression inputs of the repaired classes; "
+        "non-trivial = distinct (lib, kind, #params, pattern kinds, generator identifier used, generic, returns) classes")
 IMPORTS = ("From Coq Require Import List String NArith Bool.\nImport ListNotations.\nFrom IT Require Import Gen.Flatten.\nOpen Scope string_scope.\n")
-WITNESSES = {
+# inputs of the classes on which the crate failed before the repairs (`fixed:` lines) or still fails (`finding:` lines).
+# They are ordinary corpus members: judged like every other input unless their class is LISTED as `finding:`.
+REGRESSIONS = {
     "param-named-actor": [("pub fn add(&self, actor: u8) -> u8 { actor }", "ref"),
                           ("pub fn gen<G: Send + Sync + 'static>(&mut self, actor: G, k: u8) -> u8 { k }", "mut"),
-                          ("pub fn fin(self, actor: u8) -> Option<u8> { None }", "slf")],
+                          ("pub fn fin(self, actor: u8) -> Option<u8> { None }", "slf"),
+                          ("pub fn vd(&mut self, (actor,): (u8,), x: u8) {}", "mut"),
+                          ("pub fn rsv(&self, inter_actor: u8) -> u8 { 0 }", "ref"),
+                          ("pub fn fin2(self, inter_actor: u8) -> Option<u8> { None }", "slf")],
     "flat-name-collision": [("pub fn put(&mut self, (a, b): (u8, u8), a_b: u8) {}", "mut"),
-                            ("pub fn two(&self, (..): (u8, u8), [..]: [u8; 2]) -> u8 { 0 }", "ref")],
+                            ("pub fn two(&self, (..): (u8, u8), [..]: [u8; 2]) -> u8 { 0 }", "ref"),
+                            ("pub fn snd(&self, (inter, send): (u8, u8)) -> u8 { 0 }", "ref"),
+                            ("pub fn act(&mut self, (inter, actor): (u8, u8)) {}", "mut"),
+                            ("pub fn st2((x, y): (u8, u8), x_y: u8) -> u8 { 0 }", "stat")],
     "self-assoc-path": [("pub fn arr(&self, x: [u8; Self::N]) -> u8 { 0 }", "ref")],
     "self-print-adjacent": [("pub fn pair(&self, k: [Self; 2]) -> u8 { 0 }", "ref"),
+                            ("pub fn pair2(&mut self, k: &[Self; 2], j: Vec<[Self; 3]>) -> [Self; 2] { todo!() }", "mut"),
                             ("pub fn fold_it<G: Send + Sync + 'static>(&self, x: m::Rec) -> Option<Self> { None }", "ref")],
 }
 
@@ -84,37 +94,43 @@ def flatten_tie(rep, rng):
         raise Infra("fn:live_args batch timed out")
     model = {}
     for lo in range(0, len(sigs), 1000):
-        items = [("s%d" % k, "option_map (map fst) (live_args (T:=string) %s)" % G.coq_params(sigs[k])) for k in range(lo, min(lo + 1000, len(sigs)))]
+        items = [("s%d" % k, G.MODEL_EXPR % G.coq_params(sigs[k])) for k in range(lo, min(lo + 1000, len(sigs)))]
         model.update(inst.coq_values("C07_flat_%d" % (lo // 1000), IMPORTS, items))
     rep.checker_cmds.append("coqc generated/C07_flat_*.v (Gen/Flatten.v live_args evaluated by vm_compute)")
     bad = 0
     for k, (ps, (cls, fields)) in enumerate(zip(sigs, real)):
         rep.evaluations += 1
-        want = G.parse_coq_names(model["s%d" % k])
+        wcls, want = G.parse_coq_result(model["s%d" % k])
         pts = [G.pat_of_text(p) for p, _ in ps]
         rep.count("flatten_params", str(len(ps)))
+        rep.count("flatten_model_outcome", ["identifiers", "unsupported pattern", "naming conflict"][wcls])
         for pt in pts:
             rep.count("flatten_pattern", pt[0])
         if cls == "VALUE":
             got = [f.split("\t")[0] for f in fields]
             gty = [f.split("\t")[1] if "\t" in f else "" for f in fields]
+            gcls = 0
         else:
             got, gty = None, []
-        ok = got == want and (got is None or [G.norm_ty(t) for t in gty] == [G.norm_ty(t) for _, t in ps])
+            gcls = {"collision": 2, "pattern": 1}.get(diag_class((fields or [""])[0]), 1 if cls == "PANIC" else 9)
+        ok = gcls == wcls and got == want and (got is None or [G.norm_ty(t) for t in gty] == [G.norm_ty(t) for _, t in ps])
         rep.oblige(ok)
-        rep.nontrivial.add(("flat", tuple(pt[0] for pt in pts), got is None, tuple(n for n in (got or []) if n in G.RESERVED)))
+        rep.nontrivial.add(("flat", tuple(pt[0] for pt in pts), gcls, tuple(n for n in (got or []) if n in G.RESERVED)))
         if k % 400 == 0:
-            rep.sample({"signature": jobs[k][1][1], "model": want, "real": got})
+            rep.sample({"signature": jobs[k][1][1], "model": [wcls, want], "real": [gcls, got]})
         if ok:
             continue
         bad += 1
         if bad > 5:
             continue
-        # oracle on the real output: one identifier per parameter, same position, same type, the user's name for identifier patterns
+        # oracle on the real output: one identifier per parameter, same position, same type, the user's name for identifier
+        # patterns, identifiers pairwise distinct and not a generated binder; documented, non-colliding lists must be accepted
         probs = []
         sup = all(G.supported_param(pt) for pt in pts)
-        if got is None and sup:
-            probs.append("a parameter list inside the documented pattern forms is rejected: %s %s" % (cls, (fields or [""])[0][:300]))
+        cn = G.class_names(ps)
+        clash = len(set(cn)) != len(cn) or any(pt[0] != "id" and n in G.RESERVED_FLAT for pt, n in zip(pts, cn))
+        if got is None and sup and not clash:
+            probs.append("a parameter list inside the documented pattern forms, without a naming conflict, is rejected: %s %s" % (cls, (fields or [""])[0][:300]))
         if got is not None:
             if len(got) != len(ps):
                 probs.append("%d identifiers for %d parameters" % (len(got), len(ps)))
@@ -122,14 +138,15 @@ def flatten_tie(rep, rng):
                 for i, (pt, (p, t)) in enumerate(zip(pts, ps)):
                     if pt[0] == "id" and got[i] != pt[3]:
                         probs.append("parameter %d `%s` renamed to `%s`" % (i, p, got[i]))
+                    if pt[0] != "id" and got[i] in G.RESERVED_FLAT:
+                        probs.append("parameter %d `%s` is flattened to the generated binder `%s`" % (i, p, got[i]))
                     if G.norm_ty(gty[i]) != G.norm_ty(t):
                         probs.append("parameter %d type `%s` became `%s`" % (i, t, gty[i]))
-                cn = G.class_names(ps)
-                if sup and len(set(cn)) == len(cn) and len(set(got)) != len(got):
+                if len(set(got)) != len(got):
                     probs.append("distinct parameters share an identifier: %s" % got)
         rep.violation("flatten_%d" % k, {"what": probs or ["model (Gen/Flatten.v live_args) and get_live_args_and_sig disagree; the oracle holds on the real output (model drift)"],
-                                         "input": jobs[k][1][1], "expected": want, "observed": got if got is not None else [cls] + [f[:300] for f in fields],
-                                         "theorem": "correspondence of C07_flatten_positions / C07_flatten_names / C07_flatten_total with the crate"}, found=bool(probs))
+                                         "input": jobs[k][1][1], "expected": [wcls, want], "observed": [gcls, got] if got is not None else [cls] + [f[:300] for f in fields],
+                                         "theorem": "correspondence of C07_flatten_positions / C07_flatten_names / C07_flatten_total / C07_distinct_or_diag with the crate"}, found=bool(probs))
     return len(sigs)
 
 
@@ -139,11 +156,13 @@ def impl_configs(rng, tier):
 
     def mk(lib, methods, generic_actor, debut, chan, label):
         hdr, aty = ("impl<Q: Send + Sync + 'static> A<Q>", "A<Q>") if generic_actor else ("impl A", "A")
-        g = G.G(rng, G.PLAIN + G.RESERVED)
+        g = G.G(rng, [x for x in G.PLAIN + G.RESERVED if x not in G.WORDS_ALL])
         ctor_params = [G.gen_param(g, rng, G.SCALARS, None if rng.random() < 0.3 else "ident")[:2] for _ in range(rng.choice([0, 1, 2]))]
         cn = G.class_names(ctor_params)
-        if len(set(cn)) != len(cn):          # keep the constructor outside the flat-name-collision class
+        if len(set(cn)) != len(cn):          # keep the constructor free of naming conflicts
             ctor_params = ctor_params[:1]
+        if any(G.pat_of_text(p)[0] != "id" and n in G.RESERVED_FLAT for (p, _), n in zip(ctor_params, G.class_names(ctor_params))):
+            ctor_params = []
         ctor = "pub fn new(%s) -> Self { todo!() }" % ", ".join("%s: %s" % pt for pt in ctor_params)
         item = "%s {\n    %s\n%s\n}" % (hdr, ctor, "\n".join("    " + m["text"] for m in methods))
         return {"kind": "actor", "lib": lib, "attr": gen_impl.actor_attr(lib, chan, debut=debut), "item": item, "methods": methods, "actor_sub": aty,
@@ -158,8 +177,6 @@ def impl_configs(rng, tier):
         for sh in shapes:
             for (kind, ret, generic) in (kinds if tier != "quick" else [kinds[(k + j) % 5] for j in range(3)]):
                 k += 1
-                if r in ("inter_send", "inter_recv") and kind in ("ref", "mut"):
-                    continue
                 holes = sh.count("%s")
                 nm = rng.sample(G.PLAIN, holes + 2)
                 pos = k % holes
@@ -178,9 +195,13 @@ def impl_configs(rng, tier):
                 directed.append({"name": name, "kind": kind, "params": params, "pkinds": [], "ret": ret, "async": False, "generic": generic, "text": txt, "negative": None, "reserved": r})
     rng.shuffle(directed)
     per = 4
+    rejected = [m for m in directed if G.py_reject(m)]        # reserved words / flattened reserved names: one block each, a diagnostic is expected
+    directed = [m for m in directed if not G.py_reject(m)]
     for i in range(0, len(directed), per):
         lib = gen_impl.LIBS[(i // per) % 4]
         cs.append(mk(lib, directed[i:i + per], generic_actor=(i // per) % 5 == 0, debut=(i // per) % 3 == 0, chan=[None, 2][(i // per) % 2], label="directed_%d" % (i // per)))
+    for i, m in enumerate(rejected):
+        cs.append(mk(gen_impl.LIBS[i % 4], [m], generic_actor=False, debut=i % 3 == 0, chan=None, label="directed_reject_%d" % i))
     # (b) random impl blocks
     nrand = 45 if tier == "quick" else 260
     for lib in gen_impl.LIBS:
@@ -207,20 +228,24 @@ def impl_configs(rng, tier):
     return cs
 
 
-def expected_diag(c):
-    """which documented rule (if any) makes the macro reject this impl block"""
+def expected_diag(c, model):
+    """which rule (if any) makes the macro reject this impl block: the model's outcome of the flattening (Gen/Flatten.v) per method and
+    for the constructor, and the reserved-word rules"""
     why = []
-    for m in c["methods"]:
-        if not all(G.supported_param(G.pat_of_text(p)) for p, _ in m["params"]):
-            why.append(("pattern", m["name"]))
-        if G.word_inter(m):
-            why.append(("inter", m["name"]))
-    if not all(G.supported_param(G.pat_of_text(p)) for p, _ in c.get("ctor_params", [])):
-        why.append(("pattern", "new"))
+    for tag, nm, m in [("c%d_m%d" % (c["idx"], mi), m["name"], m) for mi, m in enumerate(c["methods"])] + [("c%d_new" % c["idx"], "new", None)]:
+        cls = model[tag][0]
+        if cls:
+            why.append((["", "pattern", "collision"][cls], nm))
+        if m is not None:
+            why += [(w, nm) for w in sorted(G.word_reject(m))]
     return why
 
 
 def diag_class(text):
+    if "carried under one identifier" in text:
+        return "collision"
+    if "`inter_actor` is reserved" in text:
+        return "inter_actor"
     if "Naming conflict" in text:
         return "inter"
     if "Unexpected pattern" in text:
@@ -246,38 +271,37 @@ def run(rep):
     # 3. real expansions
     cs = impl_configs(rng, rep.tier)
     wit = []
-    for cls_, ws in WITNESSES.items():
+    for cls_, ws in REGRESSIONS.items():
         for text, kind in ws:
             m = method_of_text(text, kind)
             extra = " const N: usize = 2;" if "Self::N" in text else ""
             wit.append({"kind": "actor", "lib": "std", "attr": "", "item": "impl A {%s\n pub fn new() -> Self { todo!() }\n %s\n}" % (extra, text), "methods": [m], "actor_sub": "A",
-                        "actor_ty": "A", "label": "witness_%s_%s" % (cls_, m["name"]), "ctor_params": [], "witness": cls_, "debut": False})
+                        "actor_ty": "A", "label": "regress_%s_%s" % (cls_, m["name"]), "ctor_params": [], "witness": cls_, "debut": False})
     cs = wit + cs
-    # rustc's printing of the signatures / types that mention `Self` (input to the class predicate self-print-adjacent)
-    pj, slots = [], []
-    for c in cs:
-        for m in c["methods"]:
-            j = G.print_jobs(m)
-            if j:
-                slots.append((m, len(pj), len(j)))
-                pj += j
-    if pj:
-        pr = hook.run_parallel(pj, tag="c07p", shards=12)
-        if pr is None:
-            raise Infra("printing batch timed out")
-        for m, lo, n in slots:
-            if all(x[0] == "VALUE" for x in pr[lo:lo + n]):
-                m["printed"] = [x[1][0] for x in pr[lo:lo + n]]
     inst.expand_configs(cs, tag="c07")
-    terms, owners, name_items = [], [], []
+    # the model's outcome of the flattening for every user method and every constructor
+    name_items = []
+    for ci, c in enumerate(cs):
+        c["idx"] = ci
+        for mi, m in enumerate(c["methods"]):
+            name_items.append(("c%d_m%d" % (ci, mi), G.MODEL_EXPR % G.coq_params(m["params"])))
+        name_items.append(("c%d_new" % ci, G.MODEL_EXPR % G.coq_params(c.get("ctor_params", []))))
+    model = {}
+    for lo in range(0, len(name_items), 1000):
+        model.update({k: G.parse_coq_result(v) for k, v in inst.coq_values("C07_names_%d" % (lo // 1000), IMPORTS, name_items[lo:lo + 1000]).items()})
+    terms, owners = [], []
     seen_known = {}
-    pending = []      # (config, model dict) awaiting Coq results
+    regress_status = {}
     for ci, c in enumerate(cs):
         rep.evaluations += 1
         rep.count("lib", c["lib"])
-        exp = expected_diag(c)
-        kc = set().union(*[G.known_classes(m) for m in c["methods"]]) if c["methods"] else set()
+        exp = expected_diag(c, model)
+        kc = set().union(*[G.known_classes(m, listed) for m in c["methods"]]) if c["methods"] else set()
+        if "witness" in c:
+            regress_status[c["label"]] = "not judged (class listed as finding)" if c["witness"] in listed else "ok"
         for m in c["methods"]:
+            for rc in G.regression_classes(m):
+                rep.count("regression_class_inputs", rc)
             rep.count("method_kind", m["kind"] + ("+generic" if m["generic"] else "") + ("+ret" if m["ret"] else ""))
             rep.count("params", str(len(m["params"])))
             for p, t in m["params"]:
@@ -292,17 +316,20 @@ def run(rep):
             got = diag_class(c["text"]) if c["class"] == "DIAG" else c["class"]
             if exp and got in [e[0] for e in exp]:
                 rep.oblige(True)
-                rep.nontrivial.add(("rejected", got, c["lib"]))
+                rep.count("rejected_as_expected", got)
+                rep.nontrivial.add(("rejected", got, c["lib"], tuple(sorted(m["kind"] for m in c["methods"]))))
                 continue
-            if "self-assoc-path" in kc and "self-assoc-path" in listed and "model::replace" in c["text"]:
+            if "self-assoc-path" in kc and "model::replace" in c["text"]:
                 rep.oblige(True)
                 seen_known.setdefault("self-assoc-path", []).append((c, "a parameter / return type mentioning `Self::` makes the macro abort: " + " ".join(c["text"].split())[:200]))
                 continue
             rep.oblige(False)
+            if "witness" in c:
+                regress_status[c["label"]] = "FAILS"
             # shrink: which single method is rejected
             single = hook.run_parallel([("actor", [c["attr"], c["item"][:c["item"].index("{")] + "{\n pub fn new() -> Self { todo!() }\n %s\n}" % m["text"]]) for m in c["methods"]], tag="c07s")
             culprit = [m["text"] for m, r in zip(c["methods"], single or []) if r[0] != "TOKENS"]
-            rep.violation("rejected_" + c["label"], {"what": "an impl block inside the documented envelope (supported patterns, no reserved inter_send / inter_recv) is not expanded",
+            rep.violation("rejected_" + c["label"], {"what": "an impl block inside the documented envelope (supported patterns, no naming conflict, no reserved inter_ name) is not expanded; the rules expected %s" % (exp or "an expansion"),
                                                      "class": c["class"], "attr": c["attr"], "item": c["item"], "methods_rejected_alone": culprit, "output": c["text"][:1500],
                                                      "expected": "an expansion whose handle methods pass every argument by position"}, found=True)
             continue
@@ -315,27 +342,22 @@ def run(rep):
         k = len(terms)
         terms.append(ms[0])
         owners.append(c)
-        for mi, m in enumerate(c["methods"]):
-            name_items.append(("c%d_m%d" % (k, mi), "option_map (map fst) (live_args (T:=string) %s)" % G.coq_params(m["params"])))
-    # Coq: premise + per-method facts on the real IR; model names for every user method
+    # Coq: premise + per-method facts on the real IR
     res, mod = inst.coq_eval(PID, terms, [("wf", "wf_C07 {i}"), ("facts", "c07_facts {i}")], extra_imports="From IT Require Import Sdpl.WfC07 Runtime.Combined.\n")
-    names = {}
-    for lo in range(0, len(name_items), 1000):
-        names.update(inst.coq_values("C07_names_%d" % (lo // 1000), IMPORTS, name_items[lo:lo + 1000]))
     rep.checker_cmds.append("coqc generated/C07_inst.v; coqc generated/C07_names_*.v; coqc generated/C07_oblig.v")
     good = []
     for k, (c, r) in enumerate(zip(owners, res)):
         mdl = c["ex"]["models"][0]
         facts = {n: (a == "true", b_ == "true", d == "true") for n, a, b_, d in re.findall(r'\("([^"]*)", (true|false), (true|false), (true|false)\)', r["facts"])}
-        exp = expected_diag(c)
+        exp = expected_diag(c, model)
         inst_ok = r["wf"] == "true"
         failing_unknown = False
         any_known = False
         for mi, m in enumerate(c["methods"]):
             rep.evaluations += 1
-            kc = G.known_classes(m) & listed
+            kc = G.known_classes(m, listed)
             probs = G.oracle_method(m, mdl, c["actor_sub"], mdl["direct"]["param"] if mdl.get("direct") else "")
-            want = G.parse_coq_names(names["c%d_m%d" % (k, mi)])
+            want = model["c%d_m%d" % (c["idx"], mi)][1]
             lm = [x for x in mdl["methods"] if x.get("name") == m["name"]]
             got = [p for p, _ in lm[0].get("params", [])] if len(lm) == 1 else None
             f = facts.get(m["name"], (False, False, False))
@@ -359,6 +381,8 @@ def run(rep):
                 continue
             rep.oblige(False)
             failing_unknown = True
+            if "witness" in c:
+                regress_status[c["label"]] = "FAILS"
             if probs:
                 rep.violation("method_%s_%s" % (c["label"], m["name"]), {"what": probs, "input_method": m["text"], "attr": c["attr"], "item": c["item"], "lib": c["lib"],
                               "expected": "handle parameters %s passed by position to the user method `%s`, receiver = the actor, result sent back on the call's own oneshot" % (want, m["name"]),
@@ -373,6 +397,8 @@ def run(rep):
         if exp and not failing_unknown:
             # the model expected a rejection, the macro expanded, and every method passes the oracle: correspondence broken without a failing input
             rep.oblige(False)
+            if "witness" in c:
+                regress_status[c["label"]] = "FAILS"
             rep.violation("accepted_" + c["label"], {"what": "Gen/Flatten.v / the reserved-name rule predict a rejection %s but the macro expanded the block" % exp, "item": c["item"], "attr": c["attr"]}, found=False)
             continue
         if inst_ok:
@@ -391,6 +417,11 @@ def run(rep):
     if not ok:
         rep.violation("obligations", {"what": "kernel rejected instance lemmas", "output": out[-2000:]}, found=False)
     rep.extra["instances_proved"] = len(good)
+    # the regression inputs of the repaired classes that expand must be among the kernel-checked instances
+    for k, c in enumerate(owners):
+        if "witness" in c and c["witness"] not in listed and regress_status.get(c["label"]) == "ok" and k not in good:
+            regress_status[c["label"]] = "expanded but wf_C07 = false"
+    rep.extra["regression_inputs"] = regress_status
     # 4. known findings: the witnesses decide
     for cl in sorted(listed):
         ws = [x for x in seen_known.get(cl, []) if x[0].get("witness") == cl]
@@ -411,4 +442,5 @@ def run(rep):
                         "the model (binders joined by `_`) is compared as correspondence",
                         "rustc's type checker guarantees a call supplies as many values as the handle method declares parameters (hypothesis `length vs = length (lm_params lm)`)",
                         "channel / oneshot / spawn primitives behave as defined in Runtime/Actor.v (modelled, not verified)",
-                        "known-finding classes (decidable on the input): param-named-actor, flat-name-collision, self-assoc-path - inputs inside a listed class are not judged"]
+                        "inputs of a class LISTED as `finding:` in known_findings.txt (currently: self-assoc-path, a type mentioning `Self::`) are not judged; the repaired classes "
+                        "param-named-actor, flat-name-collision, self-print-adjacent are ordinary regression inputs (recurrence = VIOLATION)"]
